@@ -13,6 +13,9 @@ class by class, and with a from-scratch reachability walk of the graph:
   item    item-level mutation of an intermediate container: legacy0 called <=>
           observe delivered a container event ('.'), everybody silent (':')
   after-remove  no call from anybody
+  stale   a container object replaced by an assignment (the caller kept a
+          reference) is unreachable: mutating it and changing leaves of objects
+          only reachable through it is silent for everybody
 
 Every step is followed by a probe phase that changes the final attribute on
 every node of the tree and on recently detached nodes.  See DESIGN.md 4 / C16.
@@ -37,10 +40,13 @@ META = {
              "'.'/':' at every position, depth 1-3, final v or [v,w]) x handler flavour (functions "
              "/ bound methods) x random tree x 16-20 (thorough: 16-28) random operations (link reassignment to fresh subtree / None, "
              "whole-container assignment, every mutating list/dict/set method, re-insertion of a "
-             "detached subtree root, on attached on-path, attached off-path and detached nodes), "
+             "detached subtree root, on attached on-path, attached off-path and detached nodes; "
+             "mutation - mostly insertion of fresh subtrees - of a container OBJECT that an earlier "
+             "assignment replaced and the caller kept: nothing below it is reachable), "
              "removal of the registrations late in the history (sometimes followed by a fresh "
              "registration); after every operation one probe (final attribute += 1) per tree node "
-             "and per recently detached node.  distinct_nontrivial counts distinct (name-pair "
+             "and per recently detached node and per node below a replaced container.  "
+             "distinct_nontrivial counts distinct (name-pair "
              "class, operation kind, position class of the target, outcome class per voice) "
              "signatures of operations/probes in which at least one voice was called or the model "
              "expected a call."),
@@ -54,18 +60,25 @@ META = {
                   "link_reported_matched": 2500, "link_colon_silent_matched": 2500,
                   "item_dot_matched": 3000, "item_colon_silent_matched": 2800,
                   "after_remove_nonvacuous_silent": 10000, "detached_nonvacuous_silent": 40000,
-                  "reinsert_nonempty_matched": 2000},
+                  "reinsert_nonempty_matched": 2000,
+                  # replaced ("stale") containers whose former owner.attr is on the path
+                  "stale_hot_ops_silent": 800, "stale_nonvacuous_silent": 12000},
         "thorough": {"evaluations": 8000000, "final_nonempty_matched": 500000,
                      "link_reported_matched": 35000, "link_colon_silent_matched": 35000,
                      "item_dot_matched": 40000, "item_colon_silent_matched": 40000,
                      "after_remove_nonvacuous_silent": 150000, "detached_nonvacuous_silent": 600000,
-                     "reinsert_nonempty_matched": 30000},
+                     "reinsert_nonempty_matched": 30000,
+                     "stale_hot_ops_silent": 12000, "stale_nonvacuous_silent": 200000},
     },
     "assumptions": [
         "graphs are tree-shaped: every object is referenced from at most one place",
         "the reachability model reads the object graph through instance __dict__ (no side effects)",
         "item-level mutation of '.' links is compared through the legacy 0-argument signature only "
         "(the 4-argument signature is registered for <name>_items only below the first link)",
+        "a container object that is no longer the value of its trait (replaced by an assignment) is "
+        "not an intermediate link: its mutation and the leaves of objects only reachable through "
+        "it must be silent for every voice; its members are not re-inserted elsewhere while it "
+        "still refers to them (tree shape)",
         "a whole-container assignment whose old and new contents are equal (both empty) is not a "
         "change for either system (equality comparison mode); only agreement is demanded there",
     ],
@@ -379,6 +392,14 @@ def build(spec, pool):
 # one history
 
 
+class Holder:
+    """Stands for "the owner" of a stale (replaced) container object, so that
+    the container operations and `kids` can be applied to it unchanged."""
+
+    def __init__(self, attr, obj):
+        setattr(self, attr, obj)
+
+
 class Violation(Exception):
     def __init__(self, key, msg):
         Exception.__init__(self, key)
@@ -407,6 +428,11 @@ class History:
         self.fresh_detached = []      # nodes detached by the last operation
         self.reinserted = set()       # serials of re-inserted subtree nodes
         self.ever_final = set()       # serials of nodes both voices were once called for
+        # stale containers: container objects that were the value of owner.attr
+        # until an assignment replaced them; the caller kept a reference.
+        # Nothing below a stale container is reachable.  id -> dict
+        self.stale = {}
+        self.last_stale = None
         self.nops = 0
         # structural class of the last operation ("assign@list.", "item@offpath-dict", ...):
         # the name-pair class used in mechanism keys is the class of the path
@@ -482,6 +508,45 @@ class History:
                 out[ser(n)] = i
         return out
 
+    # -- stale containers -----------------------------------------------------
+    def stale_members(self, e):
+        return kids(Holder(e["attr"], e["obj"]), e["attr"])
+
+    def held(self):
+        """Serials of the direct members of stale containers: still referenced
+        from there, hence not re-insertable elsewhere (tree shape)."""
+        out = set()
+        for e in self.stale.values():
+            out.update(ser(x) for x in self.stale_members(e))
+        return out
+
+    def stale_hot(self, e, lv, attached):
+        """Level of the former owner if owner.attr is on the path right now
+        (had the container not been replaced its members would be reachable)."""
+        i = lv.get(e["owner"]) if e["owner"] in attached else None
+        if i is not None and i < len(self.pair.path) and e["attr"] in self.pair.path[i]:
+            return i
+        return None
+
+    def stale_would_be_final(self, lv, attached):
+        """Serials of nodes that would sit on the final level if the stale
+        containers were still the values of their traits."""
+        out = set()
+        k = len(self.pair.path)
+        for e in self.stale.values():
+            i = self.stale_hot(e, lv, attached)
+            if i is None:
+                continue
+            cur = self.stale_members(e)
+            for j in range(i + 1, k):
+                nxt = []
+                for n in cur:
+                    for a in self.pair.path[j]:
+                        nxt.extend(kids(n, a))
+                cur = nxt
+            out.update(ser(n) for n in cur)
+        return out
+
     # -- judging ---------------------------------------------------------------
     def split(self):
         r = self.rec
@@ -536,10 +601,17 @@ class History:
         # every node detached by the last operation (capped), plus a few
         # detached earlier
         extra, seen = [], set()
-        for n in self.fresh_detached[:16] + self.recent[-5:]:
+        below_stale = []
+        for sid, e in self.stale.items():
+            sub = []
+            for x in self.stale_members(e):
+                sub.extend(walk(x)[0])
+            below_stale.extend(sub[:12] if sid == self.last_stale else sub[:3])
+        for n in self.fresh_detached[:16] + self.recent[-5:] + below_stale[-24:]:
             if ser(n) not in attached and ser(n) not in seen:
                 seen.add(ser(n))
                 extra.append(n)
+        wb_final = self.stale_would_be_final(lv, attached) if self.stale else ()
         r = self.rec
         for n in nodes + extra:
             s = ser(n)
@@ -569,6 +641,8 @@ class History:
                         if on_final and f in self.pair.finals:
                             self.count("after_remove_nonvacuous_silent")
                             self.sig("probe-after-remove", f)
+                        if not is_att and s in wb_final and f in self.pair.finals:
+                            self.count("after_remove_stale_nonvacuous_silent")
                     continue
                 expected = ([(enc(n), f, old, old + 1)]
                             if on_final and f in self.pair.finals else [])
@@ -597,6 +671,11 @@ class History:
                             # was called for while attached, silent now
                             self.count("detached_nonvacuous_silent")
                             self.sig("probe-detached", f, self.trigger)
+                        if s in wb_final and f in self.pair.finals:
+                            # only reachable through a replaced container whose
+                            # former owner.attr is on the path: silent
+                            self.count("stale_nonvacuous_silent")
+                            self.sig("probe-below-stale", f, self.trigger)
         r.clear()
 
     # -- operations ---------------------------------------------------------------
@@ -618,6 +697,8 @@ class History:
             self.register()
             self.probe_phase()
             return True
+        if name == "stale":
+            return self.apply_stale(op)
         m = self.pool.get(op[1])
         if m is None:
             return False
@@ -639,7 +720,8 @@ class History:
             ("offpath-" if s in attached else "detached-") + KIND[attr])
         before = kids(m, attr)
         before_ids = [ser(x) for x in before]
-        old_enc = enc(m.__dict__.get(attr)) if mode != "item" else None
+        old_obj = m.__dict__.get(attr)
+        old_enc = enc(old_obj) if mode != "item" else None
         r = self.rec
         r.clear()
         del EXC[:]
@@ -652,6 +734,11 @@ class History:
                             "operation %r raised %r" % (op, e))
         self.nops += 1
         self.check_exc(opclass)
+        if (name == "assign" and len(op) > 4 and op[4] is not None and old_obj is not None
+                and m.__dict__.get(attr) is not old_obj):
+            # the caller keeps a reference to the replaced container object
+            self.stale[op[4]] = {"obj": old_obj, "owner": s, "attr": attr}
+            self.count("stale_containers_kept")
         after = kids(m, attr)
         after_ids = [ser(x) for x in after]
         # bookkeeping of detached subtrees
@@ -757,7 +844,80 @@ class History:
         self.probe_phase()
         return True
 
-    def prepare(self, m, op):
+    def apply_stale(self, op):
+        """("stale", id, method, args...): mutate a replaced container object.
+        The container is not the value of any trait, so nothing in it is
+        reachable along the name: every voice must stay silent, now and for
+        the leaves of the objects in it (probe phase)."""
+        e = self.stale.get(op[1])
+        if e is None:
+            return False
+        attr = e["attr"]
+        holder = Holder(attr, e["obj"])
+        thunk = self.prepare(holder, (KIND[attr], None) + tuple(op[2:]), allow_reinsert=False)
+        if thunk is None:
+            return False
+        fn = thunk[2]
+        nodes, _ = walk(self.root)
+        attached = {ser(n) for n in nodes}
+        lv = self.level_of()
+        i = self.stale_hot(e, lv, attached)
+        before = kids(holder, attr)
+        before_ids = [ser(x) for x in before]
+        r = self.rec
+        r.clear()
+        del EXC[:]
+        step = "stale-" + KIND[attr]
+        opclass = "stale-%s-item" % KIND[attr]
+        self.trigger = "item@" + step
+        try:
+            fn()
+        except Exception as exc:
+            raise Violation("raised/%s/%s" % (type(exc).__name__, opclass),
+                            "operation %r raised %r" % (op, exc))
+        self.nops += 1
+        self.check_exc(opclass)
+        self.last_stale = op[1]
+        after = kids(holder, attr)
+        after_ids = [ser(x) for x in after]
+        self.recent.extend(self.fresh_detached)
+        self.fresh_detached = []
+        for x in before:
+            if ser(x) not in after_ids:
+                # no referrer left: a free detached subtree
+                if not any(x is dr for dr in self.detached_roots):
+                    self.detached_roots.append(x)
+                self.fresh_detached.extend(walk(x)[0])
+        self.recent = self.recent[-24:]
+        self.ev()
+        pos = "stale, former owner %s" % ("off-path/detached" if i is None
+                                          else "on-path" + self.pair.seps[i])
+        what = "[%s <-> %s] op %r on the replaced %s container of N%d.%s (%s)" % (
+            self.pair.legacy, self.pair.observe, op, KIND[attr], e["owner"], attr, pos)
+        if not self.registered:
+            self.check_silent(what)
+            if self.was_removed:
+                self.count("after_remove_ops_silent")
+            self.probe_phase()
+            return True
+        Lf, Ll, Li, Lx, Of, Ol, Ox = self.split()
+        self.compare("final", Lf, Of, [], what)
+        self.compare("link", Ll + Lx, Ol + Ox, [], what, step)
+        z, nC = r.Z[0], len(r.C)
+        if z or nC or Li:
+            who = "legacy0" if z else ("observe" if nC else "legacy4")
+            raise Violation("item/reported-by-%s/%s" % (who, step),
+                            "%s: legacy0 %d calls, legacy4 %r, observe container events %r"
+                            % (what, z, Li, r.C[:2]))
+        self.count("stale_ops_silent")
+        if i is not None and sorted(before_ids) != sorted(after_ids):
+            self.count("stale_hot_ops_silent")
+            self.sig(opclass, op[2], "on-path" + self.pair.seps[i],
+                     len(after_ids) > len(before_ids))
+        self.probe_phase()
+        return True
+
+    def prepare(self, m, op, allow_reinsert=True):
         """(attr, mode, thunk) for a literal op, or None when inapplicable.
         mode: 'assign' (trait assignment) or 'item' (container mutation)."""
         name = op[0]
@@ -769,10 +929,12 @@ class History:
             return build(spec, pool)
 
         used = set()
+        held = self.held() if self.stale else ()
 
         def det(s):
-            # a detached root may be re-inserted at one place only
-            if s in used:
+            # a detached root may be re-inserted at one place only, and not
+            # while a stale container still refers to it
+            if s in used or s in held or not allow_reinsert:
                 return None
             for dr in self.detached_roots:
                 if ser(dr) == s and dr is not m and not self.in_subtree(m, dr):
@@ -795,7 +957,7 @@ class History:
                 return None
             return attr, "assign", lambda: setattr(m, attr, val)
         if name == "assign":
-            _, _, attr, xs = op
+            attr, xs = op[2], op[3]
             if KIND[attr] == "dict":
                 vals = {key: value(x) for key, x in xs.items()}
                 if any(v is None for v in vals.values()):
@@ -957,6 +1119,10 @@ class History:
         lv = self.levels()
         k = len(pair.path)
         size = len(nodes)
+        if self.stale and rng.random() < 0.16:
+            op = self.gen_stale_op(rng, counter, nodes, depths)
+            if op is not None:
+                return op
         r = rng.random()
         m = attr = None
         if r < 0.72:
@@ -975,12 +1141,13 @@ class History:
         dm = depths[ser(m)] if any(m is x for x in nodes) else 1
         budget = [3 if size > 30 else 6]
         used = set()
+        held = self.held() if self.stale else ()
 
         def new():
             x = None
             if self.detached_roots and rng.random() < 0.12:
                 cands = [dr for dr in self.detached_roots
-                         if dr is not m and ser(dr) not in used
+                         if dr is not m and ser(dr) not in used and ser(dr) not in held
                          and not self.in_subtree(m, dr)]
                 if cands:
                     x = ("R", ser(rng.choice(cands)))
@@ -996,11 +1163,16 @@ class History:
             if cur is not None and rng.random() < 0.25:
                 return ("inst", s, attr, None)
             return ("inst", s, attr, new())
-        if rng.random() < 0.18:
+        if rng.random() < 0.22:
             n = rng.choice((0, 0, 1, 1, 2, 3))
+            # most of the time the caller keeps the container being replaced
+            # (a stale alias, mutated later by "stale" operations)
+            sid = next(counter) if (m.__dict__.get(attr) is not None
+                                    and rng.random() < 0.7) else None
             if kind == "dict":
-                return ("assign", s, attr, {key: new() for key in sorted(rng.sample(KEYS, n))})
-            return ("assign", s, attr, [new() for _ in range(n)])
+                return ("assign", s, attr, {key: new() for key in sorted(rng.sample(KEYS, n))},
+                        sid)
+            return ("assign", s, attr, [new() for _ in range(n)], sid)
         if kind == "list":
             cur = m.__dict__.get("cs")
             n = len(cur) if cur is not None else 0
@@ -1084,6 +1256,77 @@ class History:
             sel = [x for x in mem if rng.random() < 0.4]
             return ("set", s, meth, sel, [new() for _ in range(rng.choice((0, 1, 1, 2)))])
         return ("set", s, meth)
+
+
+    def gen_stale_op(self, rng, counter, nodes, depths):
+        """One mutation of a replaced container: mostly insertions of fresh
+        subtrees, some removals."""
+        pair = self.pair
+        attached = {ser(n) for n in nodes}
+        lv = self.level_of()
+        sids = sorted(self.stale)
+        hot = [sid for sid in sids if self.stale_hot(self.stale[sid], lv, attached) is not None]
+        sid = rng.choice(hot) if hot and rng.random() < 0.85 else rng.choice(sids)
+        e = self.stale[sid]
+        i = self.stale_hot(e, lv, attached)
+        depth = (i if i is not None else 0) + 1      # would-be depth of a member
+        budget = [4]
+
+        def new():
+            return gen_spec(rng, counter, pair, depth, budget)
+
+        kind = KIND[e["attr"]]
+        obj = e["obj"]
+        n = len(obj)
+        grow = rng.random() < 0.7 or n == 0
+        if kind == "list":
+            if grow:
+                meth = rng.choice(("append", "insert", "extend", "iadd", "setitem", "slice_set"))
+                if meth == "setitem" and not n:
+                    meth = "append"
+                if meth == "append":
+                    return ("stale", sid, meth, new())
+                if meth == "insert":
+                    return ("stale", sid, meth, rng.randint(0, n), new())
+                if meth == "setitem":
+                    return ("stale", sid, meth, rng.randrange(n), new())
+                if meth == "slice_set":
+                    a = rng.randint(0, n)
+                    return ("stale", sid, meth, (a, rng.randint(a, n), None),
+                            [new() for _ in range(rng.choice((1, 1, 2)))])
+                return ("stale", sid, meth, [new() for _ in range(rng.choice((1, 2)))])
+            meth = rng.choice(("pop", "delitem", "remove", "clear", "reverse"))
+            if meth in ("pop", "delitem", "remove"):
+                return ("stale", sid, meth, rng.randrange(n))
+            return ("stale", sid, meth)
+        if kind == "dict":
+            keys = sorted(obj)
+            if grow:
+                meth = rng.choice(("setitem", "setitem", "update", "ior", "setdefault"))
+                if meth in ("setitem", "setdefault"):
+                    key = rng.choice(keys) if keys and rng.random() < 0.4 else rng.choice(KEYS)
+                    return ("stale", sid, meth, key, new())
+                ks = sorted(rng.sample(KEYS, rng.choice((1, 2))))
+                return ("stale", sid, meth, {key: new() for key in ks})
+            meth = rng.choice(("delitem", "pop", "popitem", "clear"))
+            if meth in ("delitem", "pop"):
+                return ("stale", sid, meth, rng.choice(keys))
+            return ("stale", sid, meth)
+        mem = sorted(ser(x) for x in obj)
+        if grow:
+            meth = rng.choice(("add", "add", "update", "ior", "symmetric_difference_update"))
+            if meth == "add":
+                return ("stale", sid, meth, new())
+            if meth == "symmetric_difference_update":
+                return ("stale", sid, meth, [x for x in mem if rng.random() < 0.3],
+                        [new() for _ in range(rng.choice((1, 2)))])
+            return ("stale", sid, meth, [new() for _ in range(rng.choice((1, 2)))])
+        meth = rng.choice(("remove", "discard", "pop", "clear", "difference_update"))
+        if meth in ("remove", "discard"):
+            return ("stale", sid, meth, rng.choice(mem))
+        if meth == "difference_update":
+            return ("stale", sid, meth, [x for x in mem if rng.random() < 0.5])
+        return ("stale", sid, meth)
 
 
 # --------------------------------------------------------------------------
